@@ -4,7 +4,7 @@
 From Coq Require Import List NArith ZArith Bool Lia Arith.
 From Okv Require Import Model.Lit Model.Syntax Model.Comb Model.ParseExpr Model.ParseMeta
   Model.ParsePosting Model.ParseTxn Model.ParseDirective Model.ParseLedger
-  Proofs.CombSpec Proofs.ParseSafe.
+  Proofs.CombSpec Proofs.ParseExprErase Proofs.ParseSafe.
 Import ListNotations.
 
 Definition no_hazard (r : ledger_result) : Prop :=
@@ -100,46 +100,94 @@ Proof.
   eapply okv_bind; [apply okv_any |]. intros _ _ i x r0 H0. inversion H0; subst. exact Hb.
 Qed.
 
-Lemma okv_foldl1_loop : forall (operand : parser s_expr) (sep : parser s_binop) d,
-  ok_val operand (fun e => (expr_depth e <= d)%nat) ->
-  forall f acc, (expr_depth acc <= d)%nat ->
-    ok_val (foldl1_loop f operand sep (fun l o r => SBinary o l r) acc) (fun e => (expr_depth e <= d)%nat).
+Lemma okv_try_map_some : forall A B (p : parser A) (f : A -> option B) (P : B -> Prop),
+  ok_val p (fun a => forall b, f a = Some b -> P b) -> ok_val (try_map p f) P.
 Proof.
-  intros operand sep d Hop. induction f; intros acc Hacc i e r H; simpl in H.
-  - destruct (sep i) as [b m | [] l m | |]; try discriminate.
-    + destruct (consumed i m); [| discriminate].
-      destruct (operand m) as [a m' | [] l m' | |]; try discriminate. inversion H; subst; assumption.
+  intros A B p f P Hp i b r H. unfold try_map in H.
+  destruct (p i) as [a m | | |] eqn:E; try discriminate.
+  destruct (f a) as [b' |] eqn:F; [| discriminate]. inversion H; subst.
+  eapply Hp; eauto.
+Qed.
+
+(* an invariant of a chain: P of the folded left part, Q of the operands, the operators
+   classified by isop; a fold step may rely on the height check having passed *)
+Lemma okv_chain_loop_gen : forall (op : parser s_binop) (operand : parser s_expr)
+    (P Q : s_expr -> Prop) (isop : s_binop -> bool),
+  ok_val operand Q -> ok_val op (fun o => isop o = true) ->
+  (forall o l r, P l -> isop o = true -> Q r ->
+                 fits_under (Nat.max (expr_height l) (expr_height r)) = true -> P (SBinary o l r)) ->
+  forall f lhs, P lhs -> ok_val (chain_loop f op operand lhs) P.
+Proof.
+  intros op operand P Q isop Hop Hsp Hstep.
+  assert (Hsep : ok_val (delimited space0 op space0) (fun o => isop o = true))
+    by (apply okv_delimited; exact Hsp).
+  induction f; intros lhs Hl i e r H; cbn [chain_loop] in H.
+  - destruct (delimited space0 op space0 i) as [b m | [] l m | |]; try discriminate.
+    + destruct (operand m) as [a m' | [] l m' | |]; try discriminate.
+      * destruct (fits_under _); discriminate.
+      * inversion H; subst; assumption.
     + inversion H; subst; assumption.
-  - destruct (sep i) as [b m | [] l m | |]; try discriminate.
-    + destruct (consumed i m); [| discriminate].
-      destruct (operand m) as [a m' | [] l m' | |] eqn:E; try discriminate.
-      * eapply IHf; [| eassumption]. simpl. apply Hop in E. lia.
+  - destruct (delimited space0 op space0 i) as [b m | [] l m | |] eqn:ES; try discriminate.
+    + destruct (operand m) as [a m' | [] l m' | |] eqn:E; try discriminate.
+      * destruct (fits_under _) eqn:F; [| discriminate].
+        eapply IHf; [| eassumption].
+        apply Hstep; [assumption | eapply Hsep; eauto | eapply Hop; eauto | exact F].
       * inversion H; subst; assumption.
     + inversion H; subst; assumption.
 Qed.
-Lemma okv_infixl : forall fuel op operand d,
-  ok_val operand (fun e => (expr_depth e <= d)%nat) ->
-  ok_val (infixl fuel op operand) (fun e => (expr_depth e <= d)%nat).
+Lemma okv_infixl_e_gen : forall fuel op operand (P Q : s_expr -> Prop) (isop : s_binop -> bool),
+  ok_val operand Q -> ok_val op (fun o => isop o = true) ->
+  (forall e, Q e -> P e) ->
+  (forall o l r, P l -> isop o = true -> Q r ->
+                 fits_under (Nat.max (expr_height l) (expr_height r)) = true -> P (SBinary o l r)) ->
+  ok_val (infixl_e fuel op operand) P.
 Proof.
-  intros fuel op operand d Hop i e r H. unfold infixl, separated_foldl1 in H.
+  intros fuel op operand P Q isop Hop Hsp Hin Hstep i e r H. unfold infixl_e in H.
   destruct (operand i) as [a m | | |] eqn:E; try discriminate.
-  eapply okv_foldl1_loop; [eassumption | | eassumption]. eapply Hop; eassumption.
+  eapply okv_chain_loop_gen; [exact Hop | exact Hsp | exact Hstep | | eassumption].
+  apply Hin. eapply Hop; eauto.
 Qed.
-Lemma okv_unary_expr : forall ve d,
-  ok_val ve (fun v => (vexpr_depth v <= d)%nat) ->
-  ok_val (unary_expr ve) (fun e => (expr_depth e <= d)%nat).
+(* the same invariant of operands and chain *)
+Lemma okv_infixl_e : forall fuel op operand (P : s_expr -> Prop),
+  ok_val operand P ->
+  (forall o l r, P l -> P r -> fits_under (Nat.max (expr_height l) (expr_height r)) = true ->
+                 P (SBinary o l r)) ->
+  ok_val (infixl_e fuel op operand) P.
 Proof.
-  intros ve d Hve i e r H. unfold unary_expr in H. destruct i as [| c t]; [discriminate |].
+  intros fuel op operand P Hop Hstep.
+  apply okv_infixl_e_gen with (Q := P) (isop := fun _ => true); auto.
+  intros i o r _. reflexivity.
+Qed.
+Lemma okv_unary_e : forall ve (Q : s_vexpr -> Prop) (P : s_expr -> Prop),
+  ok_val ve Q ->
+  (forall v, Q v -> P (SValue v)) ->
+  (forall v, Q v -> fits_under (vexpr_height v) = true -> P (SUnaryNeg (SValue v))) ->
+  ok_val (unary_e ve) P.
+Proof.
+  intros ve Q P Hve Hval Hneg i e r H. unfold unary_e in H. destruct i as [| c t]; [discriminate |].
   destruct (N.eqb c 45).
-  - assert (G : ok_val (negate_expr ve) (fun e => (expr_depth e <= d)%nat)).
-    { unfold negate_expr. apply okv_pmap. unfold preceded.
-      eapply okv_bind; [apply okv_any |]. intros _ _ j v r' Hv. simpl. eapply Hve; eauto. }
+  - assert (G : ok_val (negate_e ve) P).
+    { unfold negate_e. apply okv_try_map_some. unfold preceded.
+      eapply okv_bind; [apply okv_any |]. intros _ _ j v r' Hv b Hb.
+      destruct (fits_under (vexpr_height v)) eqn:F; [| discriminate]. inversion Hb; subst.
+      apply Hneg; [eapply Hve; eauto | exact F]. }
     eapply G; eauto.
-  - assert (G : ok_val (pmap SValue ve) (fun e => (expr_depth e <= d)%nat)).
-    { apply okv_pmap. intros j v r' Hv. simpl. eapply Hve; eauto. }
+  - assert (G : ok_val (pmap SValue ve) P).
+    { apply okv_pmap. intros j v r' Hv. apply Hval. eapply Hve; eauto. }
     eapply G; eauto.
+Qed.
+Lemma okv_paren_e : forall add (P : s_expr -> Prop) (Q : s_vexpr -> Prop),
+  ok_val add P ->
+  (forall e, P e -> fits_under (expr_height e) = true -> Q (SParen e)) ->
+  ok_val (paren_e add) Q.
+Proof.
+  intros add P Q Hadd Hp. unfold paren_e. apply okv_try_map_some. unfold paren.
+  apply okv_delimited, okv_delimited. intros j e r' He b Hb.
+  destruct (fits_under (expr_height e)) eqn:F; [| discriminate]. inversion Hb; subst.
+  apply Hp; [eapply Hadd; eauto | exact F].
 Qed.
 
+(* ---- nesting ---- *)
 Lemma value_expr_d_depth : forall fuel d,
   ok_val (value_expr_d fuel d) (fun v => (vexpr_depth v <= d)%nat).
 Proof.
@@ -149,16 +197,59 @@ Proof.
   induction d; intros i v r H; simpl in H; destruct i as [| c t]; try discriminate.
   - destruct (N.eqb c 40); [discriminate |]. eapply GA; eauto.
   - destruct (N.eqb c 40); [| eapply GA; eauto].
-    match type of H with pmap SParen ?p _ = _ =>
-      assert (G : ok_val (pmap SParen p) (fun v => (vexpr_depth v <= S d)%nat)) end.
-    { apply okv_pmap. unfold paren. apply okv_delimited, okv_delimited.
-      assert (G : ok_val (infixl fuel add_op (infixl fuel mul_op (unary_expr (value_expr_d fuel d))))
-                         (fun e => (expr_depth e <= d)%nat)).
-      { apply okv_infixl, okv_infixl, okv_unary_expr. exact IHd. }
-      intros j e r' He. apply G in He. simpl. lia. }
+    match type of H with paren_e ?p _ = _ =>
+      assert (G : ok_val (paren_e p) (fun v => (vexpr_depth v <= S d)%nat)) end.
+    { apply okv_paren_e with (P := fun e => (expr_depth e <= d)%nat).
+      - apply okv_infixl_e; [apply okv_infixl_e |].
+        + apply okv_unary_e with (Q := fun v => (vexpr_depth v <= d)%nat); [exact IHd | |]; intros; simpl; assumption.
+        + intros; simpl; lia.
+        + intros; simpl; lia.
+      - intros e He _. simpl. lia. }
     eapply G; eauto.
 Qed.
 
 Theorem value_expr_depth_bounded : forall fuel i v r,
   value_expr fuel i = POk v r -> (vexpr_depth v <= max_expr_depth)%nat.
-Proof. intros fuel i v r H. eapply value_expr_d_depth. exact H. Qed.
+Proof. intros fuel i v r H. rewrite value_expr_erase in H. eapply value_expr_d_depth. exact H. Qed.
+
+(* ---- height: no tree taller than MAX_EXPR_HEIGHT leaves the parser ---- *)
+Lemma fits_under_lt : forall h, fits_under h = true -> (S h <= max_expr_height)%nat.
+Proof. intros h H. unfold fits_under in H. apply Nat.ltb_lt in H. lia. Qed.
+
+Lemma value_expr_d_height : forall fuel d,
+  ok_val (value_expr_d fuel d) (fun v => (vexpr_height v <= max_expr_height)%nat).
+Proof.
+  intros fuel.
+  assert (GA : ok_val (pmap SAmount amount) (fun v => (vexpr_height v <= max_expr_height)%nat)).
+  { apply okv_pmap. intros j a r' _. cbn [vexpr_height]. unfold max_expr_height. lia. }
+  induction d; intros i v r H; simpl in H; destruct i as [| c t]; try discriminate.
+  - destruct (N.eqb c 40); [discriminate |]. eapply GA; eauto.
+  - destruct (N.eqb c 40); [| eapply GA; eauto].
+    match type of H with paren_e ?p _ = _ =>
+      assert (G : ok_val (paren_e p) (fun v => (vexpr_height v <= max_expr_height)%nat)) end.
+    { apply okv_paren_e with (P := fun e => (expr_height e <= max_expr_height)%nat).
+      - apply okv_infixl_e; [apply okv_infixl_e |].
+        + apply okv_unary_e with (Q := fun v => (vexpr_height v <= max_expr_height)%nat); [exact IHd | |].
+          * intros v0 Hv. exact Hv.
+          * intros v0 _ F. apply fits_under_lt in F. exact F.
+        + intros o l r0 _ _ F. apply fits_under_lt in F. exact F.
+        + intros o l r0 _ _ F. apply fits_under_lt in F. exact F.
+      - intros e _ F. apply fits_under_lt in F. exact F. }
+    eapply G; eauto.
+Qed.
+
+Theorem value_expr_height_bounded : forall fuel i v r,
+  value_expr fuel i = POk v r -> (vexpr_height v <= max_expr_height)%nat.
+Proof. intros fuel i v r H. rewrite value_expr_erase in H. eapply value_expr_d_height. exact H. Qed.
+
+(* a chain of n operators is a tree of height > n: no chain longer than the bound *)
+Fixpoint chain_length (e : s_expr) : nat :=
+  match e with
+  | SBinary _ l _ => S (chain_length l)
+  | _ => O
+  end.
+Lemma chain_length_height : forall e, (chain_length e < expr_height e)%nat.
+Proof.
+  induction e; cbn [chain_length expr_height]; try lia.
+  destruct v; cbn [vexpr_height]; lia.
+Qed.
